@@ -41,13 +41,29 @@ import (
 
 const progName = "p.mtail"
 
-func source(ver int, slow bool) string {
-	pat := `/^(?P<n>\d+) a/`
-	if slow {
-		pat = `/^(?P<n>\d+) (?:.*a){12}$/`
+// source renders version ver of the program.  strp: lines carry a leading
+// time stamp which the program parses with strptime (per-VM state: the time
+// parse memo).  refuse: the version additionally declares, FIRST, a counter
+// named like a gauge of the bystander program, so that the metric store
+// refuses the reload before anything of it is merged.
+func source(ver int, slow, strp, refuse bool) string {
+	pre, stmt := "", ""
+	if strp {
+		pre, stmt = `(?P<date>\S+) `, "  strptime($date, \"2006-01-02T15:04:05Z07:00\")\n"
 	}
-	return fmt.Sprintf("gauge last\ncounter seen by n, ver\n%s {\n  last = $n\n  seen[$n][\"%d\"]++\n}\n", pat, ver)
+	pat := `/^` + pre + `(?P<n>\d+) a/`
+	if slow {
+		pat = `/^` + pre + `(?P<n>\d+) (?:.*a){12}$/`
+	}
+	decl, rule := "", ""
+	if refuse {
+		decl, rule = "counter clash\n", "/clash/ {\n  clash++\n}\n"
+	}
+	return fmt.Sprintf("%sgauge last\ncounter seen by n, ver\n%s {\n%s  last = $n\n  seen[$n][\"%d\"]++\n}\n%s", decl, pat, stmt, ver, rule)
 }
+
+const otherName = "other.mtail"
+const otherSource = "gauge clash\n/clash (\\d+)/ {\n  clash = $1\n}\n"
 
 type Action struct {
 	K    string `json:"k"`              // send | reload
@@ -58,6 +74,7 @@ type Action struct {
 	Ver  int    `json:"ver,omitempty"`  // reload: new version
 	Slow bool   `json:"slow,omitempty"` // reload: the new version carries the slow pattern
 	Sync bool   `json:"sync,omitempty"` // wait for the fan-out loop to be idle first
+	Refuse bool `json:"refuse,omitempty"` // reload: the version compiles but the store refuses one of its metrics; the old version must keep running
 }
 
 type Effect struct {
@@ -70,12 +87,22 @@ type Effect struct {
 type Case struct {
 	Kind     string   `json:"kind"`
 	Slow0    bool     `json:"slow0"` // version 1 carries the slow pattern
+	Strp     bool     `json:"strp,omitempty"`  // lines carry a time stamp and every version parses it with strptime (effect stamps are then the lines' times, not processing times)
+	Other    bool     `json:"other,omitempty"` // a second program is loaded (needed for refused reloads)
+	BadReload string  `json:"bad_reload,omitempty"`
 	Actions  []Action `json:"actions"`
 	Effects  []Effect `json:"effects"` // sorted by stamp
 	Gauge    int64    `json:"gauge"`
 	Events   []string `json:"events"` // reconstructed schedule (Coq terms)
 	Stuck    bool     `json:"stuck,omitempty"`
 	reloadAt []int64  // stamp after each reload returned
+}
+
+func stamped(strp bool, n int, s string) string {
+	if !strp || strings.HasPrefix(s, "x") {
+		return s
+	}
+	return time.Date(2024, 3, 1, 10, 0, 0, 0, time.UTC).Add(time.Duration(n)*time.Second).Format(time.RFC3339) + " " + s
 }
 
 func body(kind, n, size int) string {
@@ -145,7 +172,10 @@ func execute(c *Case) {
 	store := metrics.NewStore()
 	r, err := mrt.New(lines, &wg, "", store)
 	must(err)
-	must(r.CompileAndRun(progName, strings.NewReader(source(1, c.Slow0))))
+	if c.Other {
+		must(r.CompileAndRun(otherName, strings.NewReader(otherSource)))
+	}
+	must(r.CompileAndRun(progName, strings.NewReader(source(1, c.Slow0, c.Strp, false))))
 	var seenObjs []*metrics.Metric
 	grab := func() {
 		if m := store.FindMetricOrNil("seen", progName); m != nil {
@@ -157,17 +187,24 @@ func execute(c *Case) {
 	for _, a := range c.Actions {
 		switch a.K {
 		case "send":
-			lines <- logline.New(ctx, "log", body(a.Body, a.N, a.Size))
+			lines <- logline.New(ctx, "log", stamped(c.Strp, a.N, body(a.Body, a.N, a.Size)))
 		case "reload":
 			if a.Sync && !fanoutIdle() {
 				c.Stuck = true
 			}
 			t0 := time.Now()
 			done := make(chan error, 1)
-			go func() { done <- r.CompileAndRun(progName, strings.NewReader(source(a.Ver, a.Slow))) }()
+			go func() {
+				done <- r.CompileAndRun(progName, strings.NewReader(source(a.Ver, a.Slow, c.Strp, a.Refuse)))
+			}()
 			select {
 			case err := <-done:
-				must(err)
+				if a.Refuse && err == nil {
+					c.BadReload = fmt.Sprintf("the reload to version %d declares a counter named like another program's gauge but was accepted", a.Ver)
+				}
+				if !a.Refuse {
+					must(err)
+				}
 			case <-time.After(90 * time.Second):
 				c.Stuck = true
 				fmt.Fprintln(os.Stderr, "c20: reload did not return")
@@ -232,9 +269,18 @@ func schedule(c *Case) {
 		verOf[e.N] = e.Ver
 	}
 	var ev []string
+	fanned := map[int]bool{}
+	fanout := func(n int) {
+		fanned[n] = true
+		ev = append(ev, "(FanOut 0)")
+		if c.Other {
+			// the bystander program matches nothing and is taken to finish at once
+			ev = append(ev, "(FanOut 1)", "(Process 1 1)")
+		}
+	}
 	emit := func(cond func(*pe) bool) {
 		for _, p := range pes {
-			if !p.emitted && cond(p) {
+			if !p.emitted && fanned[p.N] && cond(p) {
 				p.emitted = true
 				ev = append(ev, fmt.Sprintf("(Process 0 %d)", p.Ver))
 			}
@@ -245,27 +291,42 @@ func schedule(c *Case) {
 	// hand-overs that the observation places after a coming reload: the
 	// fan-out loop had received the line but not yet taken the read lock when
 	// the (unsynchronised) reloads went through
-	type held struct{ n, until int }
+	type held struct{ n, until int } // until: index of the reload action after which the line was handed over
 	var heldFan []held
+	stampOf := map[int]int64{}
+	for _, e := range c.Effects {
+		stampOf[e.N] = e.Stamp
+	}
+	reloadIdx := map[int]int{} // action index -> index into reloadAt
+	for i, k := 0, 0; i < len(c.Actions); i++ {
+		if c.Actions[i].K == "reload" {
+			reloadIdx[i] = k
+			k++
+		}
+	}
 	for i, a := range c.Actions {
 		switch a.K {
 		case "send":
 			matches := a.Body != 0
 			ev = append(ev, fmt.Sprintf("(Take %s)", vlib.Bool(matches)))
 			v, processed := verOf[a.N]
-			until := 0
-			if processed && v != cur {
+			until := -1
+			if processed {
 				for j := i + 1; j < len(c.Actions) && c.Actions[j].K == "reload" && !c.Actions[j].Sync; j++ {
-					if c.Actions[j].Ver == v {
-						until = v
+					r := c.Actions[j]
+					if !r.Refuse && r.Ver == v && v != cur {
+						until = j // processed by the version this reload installed
+					}
+					if k := reloadIdx[j]; !c.Strp && k < len(c.reloadAt) && stampOf[a.N] > c.reloadAt[k] && r.Refuse {
+						until = j // its effect came after this (waiting) reload had returned
 					}
 				}
 			}
-			if until != 0 {
+			if until >= 0 {
 				heldFan = append(heldFan, held{a.N, until})
 			} else {
 				emit(func(p *pe) bool { return p.Ver == cur && p.N < a.N })
-				ev = append(ev, "(FanOut 0)")
+				fanout(a.N)
 				if !matches {
 					// a line without effect leaves no time stamp: its VM is
 					// taken to finish it at once
@@ -285,18 +346,25 @@ func schedule(c *Case) {
 				})
 			}
 			ri++
-			ev = append(ev, "(Reload 0)")
-			cur = a.Ver
+			if a.Refuse {
+				ev = append(ev, "(ReloadRefused 0)")
+			} else {
+				ev = append(ev, "(Reload 0)")
+				cur = a.Ver
+			}
 			var rest []held
 			for _, h := range heldFan {
-				if h.until == cur {
-					ev = append(ev, "(FanOut 0)")
+				if h.until == i {
+					fanout(h.n)
 				} else {
 					rest = append(rest, h)
 				}
 			}
 			heldFan = rest
 		}
+	}
+	for _, h := range heldFan { // not reached when the observation is consistent
+		fanout(h.n)
 	}
 	emit(func(p *pe) bool { return true })
 	c.Events = ev
@@ -315,6 +383,9 @@ func checkOracle(out *vlib.Out, c *Case) {
 	if c.Stuck {
 		out.Violate("reload-or-shutdown-stuck", "a reload or the shutdown of the runtime did not complete within 90 s", c)
 		return
+	}
+	if c.BadReload != "" {
+		out.Violate("clashing-reload-accepted", c.BadReload, c)
 	}
 	per := map[int][]Effect{}
 	for _, e := range c.Effects {
@@ -369,7 +440,11 @@ func coqCase(id uint64, c *Case) string {
 	for i, e := range c.Effects {
 		log[i] = fmt.Sprintf("(%d, %d)", e.N, e.Ver)
 	}
-	return vlib.App("C20Run", vlib.N(id), vlib.List(c.Events), vlib.List(log), vlib.Z(c.Gauge))
+	np := uint64(1)
+	if c.Other {
+		np = 2
+	}
+	return vlib.App("C20Run", vlib.N(id), vlib.N(np), vlib.List(c.Events), vlib.List(log), vlib.Z(c.Gauge))
 }
 
 func main() {
@@ -396,6 +471,9 @@ func main() {
 		checkOracle(out, c)
 		reloads, busy := 0, false
 		for i, x := range c.Actions {
+			if x.K == "reload" && x.Refuse && i+1 < len(c.Actions) {
+				out.Count("refused-reload-followed-by-lines")
+			}
 			if x.K == "reload" {
 				reloads++
 				if i > 0 && c.Actions[i-1].K == "send" && c.Actions[i-1].Body >= 2 {
@@ -479,18 +557,41 @@ func main() {
 		runCase(c, fmt.Sprintf("busy-%.1fs", d))
 	}
 
+	// ---- 1c. a reload that compiles but is refused by the metric store (kind
+	// clash with the bystander program), then more lines: the old version must
+	// go on processing them - with a program that keeps per-VM state (the
+	// strptime memo), with and without the old version busy at that moment
+	for i := 0; i < 4; i++ {
+		c := &Case{Slow0: i%2 == 1, Strp: i < 3, Other: true, Actions: []Action{
+			{K: "send", N: 1, Body: 1}, {K: "send", N: 2, Body: 1 + i%2},
+			{K: "reload", Ver: 1002, Slow: i%2 == 1, Sync: i != 2, Refuse: true},
+			{K: "send", N: 3, Body: 1}, {K: "send", N: 4, Body: 0}, {K: "send", N: 5, Body: 1},
+			{K: "reload", Ver: 2, Sync: true},
+			{K: "send", N: 6, Body: 1},
+			{K: "reload", Ver: 1004, Sync: true, Refuse: true},
+			{K: "send", N: 7, Body: 1},
+		}}
+		runCase(c, "refused")
+	}
+
 	// ---- 2. random interleavings of lines and reloads
 	nr := 400
 	if a.Thorough() {
 		nr = 6000
 	}
 	for i := 0; i < nr; i++ {
-		c := &Case{Slow0: rng.Chance(70)}
+		c := &Case{Slow0: rng.Chance(70), Strp: rng.Chance(40), Other: rng.Chance(50)}
 		n := 2 + rng.Intn(7)
 		ver, line := 1, 0
 		slowNow := c.Slow0
 		for j := 0; j < n; j++ {
 			if rng.Chance(30) && line > 0 {
+				if c.Other && rng.Chance(35) {
+					// refused: the installed version (and its pattern) stays;
+					// version numbers count the successful reloads
+					c.Actions = append(c.Actions, Action{K: "reload", Ver: 1000 + j, Slow: slowNow, Sync: rng.Chance(60), Refuse: true})
+					continue
+				}
 				ver++
 				slowNow = rng.Chance(50)
 				c.Actions = append(c.Actions, Action{K: "reload", Ver: ver, Slow: slowNow, Sync: rng.Chance(60)})
@@ -511,5 +612,5 @@ func main() {
 	out.Extra["longest_reload_wait_s"] = longestReload
 	// structural correspondence (coq/Corr/Run_C20_struct.v): oracle entries now, extra shard after Flush
 	defer c20struct.Attach(out, a.Out)()
-	out.Flush("sequences of 2-8 actions (send a junk / short / ~40 kB / ~400 kB line; reload to a new version, with or without waiting for the fan-out loop to be idle) through a real runtime.Runtime, the first scenarios being 'old version busy on a 400 kB line (~0.1 s), reload, next line' and 'old version busy for 3.5 s (thorough: 1.5-14 s; line length calibrated on the spot) after the reload was requested, next line'; a case is non-trivial when it contains a reload and at least two lines with an effect", false)
+	out.Flush("sequences of 2-8 actions (send a junk / short / ~40 kB / ~400 kB line; reload to a new version - or to a version the metric store refuses because of a kind clash with a second loaded program - with or without waiting for the fan-out loop to be idle; in 40% of the cases the lines carry time stamps that every version parses with strptime) through a real runtime.Runtime, the first scenarios being 'old version busy on a 400 kB line (~0.1 s), reload, next line' and 'old version busy for 3.5 s (thorough: 1.5-14 s; line length calibrated on the spot) after the reload was requested, next line'; a case is non-trivial when it contains a reload and at least two lines with an effect", false)
 }
